@@ -254,7 +254,7 @@ pub fn replay(part: &str, case: serde_json::Value) -> Option<CaseResult> {
 pub fn meta() -> EvidenceMeta {
     EvidenceMeta {
         level: "exploration",
-        rule: "cases = generated configurations (cfgtree: <=8 loggers over the component alphabet {a,b,ab,aa,ba,é}, built with descendant / skipped-level / textual-sibling / leading-'::' biases, 1-5 capture appenders, repeats allowed) x 2-6 targets derived from the configuration x 5 levels, each also under a permuted declaration order; oracle = independent component-wise route() model; non-trivial = >=2 loggers and a probe whose effective logger is non-root and reached through an additive=false logger, an implied intermediate or next to a textual-prefix sibling; distinct = FNV hash of the whole case".into(),
+        rule: "cases = generated configurations (cfgtree: <=8 loggers over the component alphabet {a,b,ab,aa,ba,é}, built with descendant / skipped-level / textual-sibling / leading-'::' biases, 1-5 capture appenders, repeats allowed) x 2-6 targets derived from the configuration x 5 levels, each also under a permuted declaration order; oracle = independent component-wise route() model; Lists reach the builders through a mix of singular and bulk calls; 10% of the cases start after 1-11 caught appender panics on the same thread (through another logger); per case one appender logs a nested record from inside append and the nested record must be routed once per delivery of the outer one. non-trivial = >=2 loggers and a probe whose effective logger is non-root and reached through an additive=false logger, an implied intermediate or next to a textual-prefix sibling; distinct = FNV hash of the whole case".into(),
         assumptions: vec!["appenders are harness Append implementations; real appenders are covered by C14".into()],
         mutants_caught: vec![],
     }
